@@ -5,6 +5,20 @@ HERE = os.path.dirname(os.path.dirname(os.path.abspath(__file__)))
 ALL = ["C%02d" % i for i in range(1, 21)]
 
 CHECKS = {
+ "C10": dict(
+  category="model_checking",
+  text="Determinism.tla: two interpreter processes with different hash seeds, leaked state and call histories call the modelled "
+       "API (parse of a function whose docstring documents any permutation of any subset of <=3/4 signature parameters); TLC "
+       "checks Functional and Covered exhaustively (~1.2M states) and must REJECT the pinned set-iteration merge rule on every "
+       "run. Binding: the TLC-enumerated inputs (as untyped and typed functions and as classes), emitters with inferred imports "
+       "on 4 interfaces x 11 formats and the repository's mock docstrings are executed in fresh interpreter processes with "
+       "PYTHONHASHSEED in {0..3, random} (quick) / {0..11, random x2} (thorough) and call orders natural / every call twice / "
+       "reversed / shuffled; verdict: all observations of one (api, input) hash equal; the merged events are validated by TLC "
+       "against TraceDeterminism.tla (with a corrupted-event binding demonstration).",
+  design_ref="DESIGN.md section 4, C10",
+  note="Trusted: sha256 of the serialised output as the observation. CLI commands (gen, sync, exmod) are exercised for determinism "
+       "only through their emitters/parsers here.",
+  technique="TLA+ two-process determinism model checked by TLC; real multi-process, multi-seed observations trace-validated"),
  "C03": dict(
   category="model_checking",
   text="Convert.tla (Mode=chain): state = (initial interface, current abstract interface or Top, formats visited); Hop(f) is one "
